@@ -39,9 +39,9 @@ type harness struct {
 	nCases int64 // part A cases really executed (memo misses)
 	nSteps int64 // part B steps really executed
 
-	exploring int32 // 1 while exploring: duplicate fingerprints are thinned out (vx keeps at most 200 violations)
+	exploring int32 // 1 while exploring: violations are held back and released once per fingerprint
 	fpMu      sync.Mutex
-	fpSeen    map[string]int
+	held      map[string]map[string]heldViolation
 }
 
 func newHarness() (*harness, error) {
@@ -53,7 +53,7 @@ func newHarness() (*harness, error) {
 	if err != nil {
 		return nil, err
 	}
-	h := &harness{w: w, fpSeen: map[string]int{}}
+	h := &harness{w: w, held: map[string]map[string]heldViolation{}}
 	h.tpl = filepath.Join(w.Root, "tpl")
 	os.MkdirAll(h.tpl, 0755)
 	// a real `git init`, without the sample hooks (nothing reads them; keeps the per-case copy tiny)
@@ -90,16 +90,62 @@ func (h *harness) newRepo() string {
 	return dir
 }
 
-// keep returns whether a violation with this fingerprint should still be attached to a result while
-// exploring (the first two per fingerprint are; the rest are only counted).
-func (h *harness) keep(fp string) bool {
-	if atomic.LoadInt32(&h.exploring) == 0 {
-		return true
+type heldViolation struct {
+	v      vx.Violation
+	prefix []vx.Point
+}
+
+func lessPrefix(a, b []vx.Point) bool {
+	if len(a) != len(b) {
+		return len(a) < len(b)
+	}
+	for i := range a {
+		if a[i].C != b[i].C {
+			return a[i].C < b[i].C
+		}
+	}
+	return false
+}
+
+// hold takes the violations of one execution out of its result while exploring and keeps, per fingerprint,
+// the one with the smallest choice vector (shortest, then lexicographically least): which case represents a
+// fingerprint (and ends up in the replay file) then does not depend on worker timing, and vx's cap of 200
+// stored violations cannot hide a fingerprint behind thousands of instances of another one.
+func (h *harness) hold(scenario string, x *vx.X, out *vx.Result) {
+	if atomic.LoadInt32(&h.exploring) == 0 || len(out.Violations) == 0 {
+		return
 	}
 	h.fpMu.Lock()
 	defer h.fpMu.Unlock()
-	h.fpSeen[fp]++
-	return h.fpSeen[fp] <= 2
+	if h.held[scenario] == nil {
+		h.held[scenario] = map[string]heldViolation{}
+	}
+	for _, v := range out.Violations {
+		old, ok := h.held[scenario][v.Fingerprint]
+		if !ok || lessPrefix(x.Points, old.prefix) {
+			h.held[scenario][v.Fingerprint] = heldViolation{v, append([]vx.Point(nil), x.Points...)}
+		}
+	}
+	if out.Counters == nil {
+		out.Counters = map[string]int64{}
+	}
+	out.Counters["violating_clause_instances"] += int64(len(out.Violations))
+	out.Violations = nil
+}
+
+// release hands the held violations of a scenario to its statistics (sorted by fingerprint).
+func (h *harness) release(scenario string, st *vx.Stats) {
+	h.fpMu.Lock()
+	defer h.fpMu.Unlock()
+	var fps []string
+	for fp := range h.held[scenario] {
+		fps = append(fps, fp)
+	}
+	sort.Strings(fps)
+	for _, fp := range fps {
+		hv := h.held[scenario][fp]
+		st.Violations = append(st.Violations, vx.FoundViolation{Violation: hv.v, Prefix: hv.prefix})
+	}
 }
 
 // checkAttr asks Git for attributes of paths (relative to the repository root).
@@ -665,10 +711,6 @@ func (c *aCtx) run(x *vx.X) vx.Result {
 		verdict = append(verdict, cl)
 		min := c.shrink(k, cl)
 		fp := fmt.Sprintf("C19:%s:%s:%s:%s", cl, modeName[mode], plName[min.pl], q(min.name))
-		if !c.h.keep(fp) {
-			out.Counters["violations_same_fingerprint_not_listed"]++
-			continue
-		}
 		mr := c.evalFresh(min)
 		if !mr.has(cl) {
 			continue // only possible in a confirmation context: the minimal form did not reproduce
@@ -705,6 +747,7 @@ func (c *aCtx) run(x *vx.X) vx.Result {
 	if r.Exit == 0 && len(r.Denoted) > 0 {
 		out.NonTrivial = []string{fmt.Sprintf("%s/%s/%s", modeName[mode], plName[pl], q(k.name))}
 	}
+	c.h.hold("names", x, &out)
 	return out
 }
 
@@ -975,10 +1018,6 @@ func (c *bCtx) run(x *vx.X) vx.Result {
 		stepDesc := fmt.Sprintf("initial file %s; ops: %s", init.Name, strings.Join(trace, " ; "))
 		viol := func(clause, id, msg string, paths []string) {
 			fp := "C19:seq-" + clause + ":" + id
-			if !h.keep(fp) {
-				out.Counters["violations_same_fingerprint_not_listed"]++
-				return
-			}
 			out.Violations = append(out.Violations, vx.Violation{Fingerprint: fp,
 				Msg: fmt.Sprintf("%s: %s\n%s\nroot .gitattributes before=%q after=%q\nsub/.gitattributes before=%q after=%q\noutput of last command: %q", msg, strings.Join(quoteAll(capList(paths, 6)), ", "), stepDesc, st.Root, ns.Root, st.Sub, ns.Sub, strings.TrimSpace(res.Out+res.Err)),
 				Detail: map[string]interface{}{"initial": init.Name, "ops": trace, "paths": paths, "before": st, "after": ns, "tainted_precondition": tainted}})
@@ -1105,6 +1144,7 @@ func (c *bCtx) run(x *vx.X) vx.Result {
 	}
 	out.Outcome = lastOutcome
 	out.Sample = map[string]interface{}{"scenario": "seq", "initial": init.Name, "ops": trace, "root_gitattributes": st.Root, "sub_gitattributes": st.Sub, "has_sub_file": st.HasSub}
+	h.hold("seq", x, &out)
 	return out
 }
 
@@ -1443,6 +1483,8 @@ func TestVerifC19(t *testing.T) {
 		"seq probe set deliberately has no path differing from `my file#1.dat` only in the kind of whitespace: that class is covered (and reported) by the names scenario",
 		"`./`-prefixed arguments are outside the enumerated grammar (git-lfs strips the prefix on purpose; Git itself would match nothing)",
 		"untrack is only demanded to undo a pattern-mode track with the identical argument (untrack has no --filename)",
+		"lockable clauses demand only what docs/man/git-lfs-track.adoc states: --lockable makes the denoted paths lockable; --not-lockable removes the flag (a path stays lockable only where another tracked pattern of the sequence still asks for it); plain track leaves lockable as it was",
+		"`--filename N` is read as: the gitattributes pattern that matches N with every character literal (a slash-less name therefore still matches in every directory below the attributes file, as Git defines)",
 	}
 
 	// confirmation re-executes the case and its minimal form; other shrink candidates come from the exploration memo
@@ -1476,6 +1518,7 @@ func TestVerifC19(t *testing.T) {
 		t0 := time.Now()
 		e := &vx.Explorer{Name: "names", BoundEnv: 0, BoundSch: 0, BoundSum: -1, Run: a.run, Deadline: deadlineA}
 		stA := e.Explore()
+		h.release("names", stA)
 		parts = append(parts, vx.Part{Scenario: "names", Stats: stA, Exec: execA})
 		extra["names_cases_really_executed"] = atomic.LoadInt64(&h.nCases)
 		extra["names_wall_s"] = time.Since(t0).Seconds()
@@ -1496,6 +1539,7 @@ func TestVerifC19(t *testing.T) {
 			allClosed = allClosed && closed
 			per = append(per, map[string]interface{}{"config": b.name, "closure_reached": closed, "bfs_levels": levels, "new_states": len(stB.States) - n0, "transitions": stB.Transitions - tr0, "wall_s": time.Since(t1).Seconds()})
 		}
+		h.release("seq", stB)
 		parts = append(parts, vx.Part{Scenario: "seq", Stats: stB, Exec: execB})
 		extra["seq_closure_reached"] = allClosed
 		extra["seq_per_configuration"] = per
